@@ -224,12 +224,7 @@ func (x *Exec) flattenRow(v Value, t types.Type, out *[]*smt.Term) {
 			case StrV:
 				t := x.strAtomTerm(w)
 				if t == nil {
-					// content string: intern if constant
-					w2 := x.normStr(w.Bytes)
-					if !w2.IsConst {
-						x.Unsupported("storing a content string with symbolic bytes in field %s", f.Name())
-					}
-					t = B.StrConst(w2.S)
+					t = x.contentAtom(w.Bytes)
 				}
 				*out = append(*out, t)
 			default:
@@ -284,7 +279,7 @@ func (x *Exec) bytesTerm(v Value) *smt.Term {
 	}
 	str := x.bytesToString(s).(StrV)
 	if !str.IsConst {
-		x.Unsupported("byte slice with symbolic content used as an opaque value")
+		return x.contentAtom(str.Bytes)
 	}
 	return x.B.StrConst(str.S)
 }
@@ -901,11 +896,7 @@ func (x *Exec) scalarTerm(v Value) *smt.Term {
 	case StrV:
 		t := x.strAtomTerm(u)
 		if t == nil {
-			w := x.normStr(u.Bytes)
-			if !w.IsConst {
-				x.Unsupported("content string with symbolic bytes used as a table key")
-			}
-			t = x.B.StrConst(w.S)
+			t = x.contentAtom(u.Bytes)
 		}
 		return t
 	case SliceV:
